@@ -64,6 +64,11 @@ func NewController(addr api.WarehouseLocation) (warehouse.BlobstoreController, e
 		// "file:rel/path" parses as an opaque URL with no path at all: joined, that would be the working directory.
 		return whCtrl, Errorf(rio.ErrUsage, "warehouse addr %q names no path (the form is %s://path)", addr, u.Scheme)
 	}
+	if u.RawQuery != "" || u.ForceQuery || u.Fragment != "" || strings.HasSuffix(string(addr), "#") {
+		// What follows a '?' or a '#' is no part of the path for a URL parser: the warehouse used would be another
+		//  directory (or file) than the one the address spells.
+		return whCtrl, Errorf(rio.ErrUsage, "warehouse addr %q contains '?' or '#': write them as %%3F and %%23 if they are part of the path", addr)
+	}
 	absPth, err := filepath.Abs(filepath.Join(u.Host, u.Path))
 	if err != nil {
 		// A relative address cannot be resolved when the working directory is gone.
